@@ -40,7 +40,7 @@ def _common(p, q, exc):
     return cl
 
 
-@obligation('E1', props=('C03', 'C07', 'C18'), quick=_N_QUICK + [dict(N=3, ro=True)],
+@obligation('E1', props=('C03', 'C07', 'C18', 'C01'), quick=_N_QUICK + [dict(N=3, ro=True)],
             thorough=_N_THOROUGH + [dict(N=3, ro=True), dict(N=5, ro=True)], stubs=_STUBS,
             bounds='voters N<=5, log entries n<=3 (first index 1..3), terms 0..5, any role/vote/leader pointer, any request fields')
 def E1(inp, N, n=2, ro=False):
